@@ -385,8 +385,13 @@ def malformed(r, sels, count=None, force=False):
 def default_case(r, sels, std=True):
     """T::default() behaves as T::new(Key::default())"""
     b = B("default", [])
-    data = rbytes(r, r.choice((0, 1, 31, 32, 33, 64, 100)))
-    parts = split_chunks(r, data, r.randrange(0, 3))
+    data = rbytes(r, r.choice((0, 1, 31, 32, 33, 64, 100, 160, 200, 300)))
+    if r.random() < 0.4 and len(data) >= 64:
+        # packet-aligned prefix (possibly in two steps) followed by one large append
+        a = r.choice((32, 64)) if len(data) >= 192 else 32
+        parts = ([data[:16], data[16:a]] if r.random() < 0.5 else [data[:a]]) + [data[a:]]
+    else:
+        parts = split_chunks(r, data, r.randrange(0, 3))
     w = r.choice((64, 128, 256))
     firsts = []
     for hi, sel in enumerate(sels):
@@ -429,7 +434,7 @@ def observers(r, sels, force=False):
     b.op(f"{nw} 1 {sel} {kstr(key)}")
     nchunks = r.randrange(1, 6)
     for _ in range(nchunks):
-        d = rbytes(r, r.choice((0, 1, 3, 16, 31, 32, 33, 47, 64, 90)))
+        d = rbytes(r, r.choice((0, 1, 3, 16, 31, 32, 32, 33, 47, 64, 64, 90, 96, 128)))
         b.op(f"append 0 {hexbytes(d)}")
         b.op(f"append 1 {hexbytes(d)}")
         for _ in range(r.randrange(0, 4)):
@@ -447,6 +452,12 @@ def observers(r, sels, force=False):
     c0 = b.op("ckpt 0")
     c1 = b.op("ckpt 1")
     b.eq(c0, c1, "observer calls changed the state of the hasher")
+    if sel not in NO_TRAITS:
+        # an observer must not change what a LATER observer returns either: finish() of the observed hasher equals
+        # finish() of the never-observed twin (handle 1 was never observed: this is its first finish)
+        q0 = b.op("finish 0")
+        q1 = b.op("finish 1")
+        b.eq(q0, q1, "finish() of a hasher that was observed earlier differs from finish() of its never-observed twin")
     # clone is identical at the moment of cloning and independent afterwards; `clone_from` into a used
     # destination (with its own pending bytes) must be the same as a fresh clone
     if r.random() < 0.6:
